@@ -4,14 +4,14 @@
 // `//@stub completion_filter filter_and_enrich_fixtures` -- whose contract is, textually,
 //     ensures offer_post(r@, available@, pv(file_path), decl_view(declared_params), opts_view(opts))
 // -- means here what was PROVED there.  Spliced at the crate root AFTER the two `//@item` structs (CompletionOpts,
-// EnrichedFixture: private fields, readable in the whole crate from the root).
-// The ONLY differences from the original text:
-//   * `closed spec fn` (opts_view, ev, evs, fixtures_of, offer_post) is spelled `pub closed spec fn`: the handler
-//     glue has to read opts_view of a CompletionOpts value it builds itself and offer_post of the callee's result;
+// EnrichedFixture: private fields, readable from the root and its child modules; the `closed` spec fns likewise).
+// Every definition below is token-for-token the one of units/completion_filter.rs (checked by
+// tools/check_hcomp_copies.py); the ONLY differences:
 //   * `sort_text_of` is not declared here: unit handlers_completion DEFINES it (prelude/hcomp_spec.rs) and proves the
 //     real make_sort_text against that definition (unit completion_filter leaves it uninterpreted and make_sort_text
 //     assumed: every statement proved there holds for any interpretation);
-//   * lemma_C18_priority_order, the canaries and the exec functions are not repeated.
+//   * lemma_filter_names_nodup is `pub`; lemma_C18_excluded_never_offered, lemma_C18_test_function_sees_all_scopes,
+//     lemma_C18_priority_order, the canaries and the exec functions are not repeated.
 // To remove the copy: let units/completion_filter.rs `//@include` a shared file instead of its inline text.
 
 pub struct OptsV { pub scope: Option<FixtureScope>, pub current: Option<Seq<char>>, pub prefix: Seq<char> }
